@@ -8,6 +8,7 @@ from .. import queries as Q
 from . import locks as L
 from .guards import guards
 
+from . import perform_names
 EXPLANATION = (
     'R17.1: on the inlined graph of every public instance method the fence '
     '(_assert_not_finished) is passed before the first state-changing action '
@@ -253,7 +254,7 @@ def r17_4(ctx, rc):
                    for g in ctx.prog.resolve_call(c, F)):
             continue
         n += 1
-        sg = ctx.E.super(F, lambda g: False)
+        sg = ctx.helpers_graph(F, stop=perform_names(ctx))
         w = Q.first_unguarded(
             sg, [sg.entry], lambda x: _is_close_store(ctx, x, False),
             lambda x: Q.is_call(x, app))
@@ -285,7 +286,9 @@ def _flag_store(sn):
 def r17_5(ctx, rc):
     R = ctx.R
     root = R.root_runner()
-    sg = ctx.E.super(root, lambda g: False)
+    sg = ctx.helpers_graph(root, stop=(R.builder + '._commit',
+                                      R.builder + '._roll_back',
+                                      R.builder + '._set_created_dirs'))
     targets = [R.builder + '._set_created_dirs', R.cache + '.write',
                R.builder + '._roll_back', R.builder + '._commit']
     for t in targets:
@@ -304,7 +307,7 @@ def r17_5(ctx, rc):
             rc.ok({'order': key}, key=key)
     # the entry point sets the flag on every exit after running the build
     for ep in R.public_static_methods:
-        sgp = ctx.E.super(ep, lambda g: False)
+        sgp = ctx.helpers_graph(ep, stop=(root.qualname,))
         starts = [x.id for x in sgp.nodes
                   if Q.is_call(x, root.qualname)]
         if not starts:
